@@ -1,6 +1,8 @@
 import Coraza.Model.Decode
 import Coraza.Model.Engine
 import Driver.Engine
+import Driver.Json
+import Driver.Multipart
 /-! Driver engine `decode` (C03) -/
 namespace Driver.Decode
 open Coraza Coraza.Decode Coraza.Engine
@@ -33,6 +35,8 @@ def model (args : List String) : Option String :=
     let ps := parseQuery raw
     if raw.isEmpty then pure "post=- args=- body=-"
     else pure s!"post={dump ps} args={dump ps} body={Bytes.toField raw}"
+  | ["json", d, tree, _] => Driver.Json.model d tree
+  | ["mp", _, parts, _] => Driver.Multipart.model parts
   | ["hdr", n, v, l] => do
     let name ← Bytes.ofField n
     let val ← Bytes.ofField v
@@ -44,6 +48,7 @@ def model (args : List String) : Option String :=
   | _ => none
 
 def judge (args obs : List String) : Bool :=
+  if args.head? == some "mpbad" then Driver.Multipart.judgeBad obs && !obs.contains "PANIC" else
   if args.head? == some "limit" then
     -- data over the limit may be dropped only if that is flagged
     (match model args with
